@@ -20,7 +20,7 @@ CONSTANTS MaxL,        \* loci 0..MaxL
                        \* worker / the loci() generator raises in main
           ForceMulti,  \* {} or {TRUE}: also run the multi-core path with one core
           SepExit,     \* TRUE: pool processes exit one by one after close(); FALSE: atomically in join()
-          Mutant,      \* "none" | "noflush" | "earlykill" | "swallow" | "overlap"
+          Mutant,      \* "none" | "noflush" | "earlykill" | "swallow" | "overlap" | "nokill"
           KeepHist     \* "none" | "labels" | "full": carry the action history (behaviour enumeration for the
                        \* replay into the implementation); "full" also records the state after every action
 
@@ -139,7 +139,7 @@ MainRaise(w) ==
 (* queue.put(KILL_SIGNAL) *)
 MainPutKill ==
   /\ pcMain = "kill" \/ EarlyKillPoint
-  /\ queue' = Append(queue, Kill)
+  /\ queue' = IF Mutant = "nokill" THEN queue ELSE Append(queue, Kill)
   /\ killPut' = TRUE
   /\ pcMain' = IF pcMain = "kill" THEN "close" ELSE pcMain
   /\ UNCHANGED <<inst, jn, out, closed, exc, exit>> /\ UW /\ UWr /\ UB
